@@ -270,3 +270,49 @@ func VH_C12_CloseDuringResend() {
 	}
 	p.shutdown()
 }
+
+// VH_C12_CloseBlockedResend: "during a retransmission" with a transport whose
+// writes block (flow control, nobody drains the stream) and only return when
+// the context they were given is cancelled - as the mailbox's gRPC streams do.
+// One party (client or server, symbolic) has an unacknowledged message; the
+// transport stalls; the retransmission is stuck inside the write when Close
+// is called. Close returns in bounded time and the connection's goroutines
+// are gone - whichever context the retransmission path writes under must be
+// one that Close cancels.
+func VH_C12_CloseBlockedResend() {
+	p := vConnect(uint8(vIntRange("n", 1, 2)), 0, WithStaticResendTimeout(time.Second))
+	vAssert(p.cliErr == nil && p.srvErr == nil, "clean handshake failed")
+	if p.cliErr != nil || p.srvErr != nil {
+		return
+	}
+	under, out, back := p.cli, p.c2s, p.s2c
+	if vBool("server_sends") {
+		under, out, back = p.srv, p.s2c, p.c2s
+	}
+	back.mu.Lock()
+	back.dead = true // acknowledgements are lost
+	back.mu.Unlock()
+	vAssert(under.Send([]byte{1}) == nil, "Send failed")
+	time.Sleep(500 * time.Millisecond)
+	out.mu.Lock()
+	out.stalled = true
+	out.mu.Unlock()
+	// the resend timeout (1 s) fires at about t = 1 s; Close comes while the
+	// retransmission sits in the transport write
+	time.Sleep([3]time.Duration{700 * time.Millisecond, 1500 * time.Millisecond, 3 * time.Second}[vIntRange("close_after", 0, 2)])
+	t0 := time.Now()
+	closed := make(chan struct{})
+	go func() { under.Close(); close(closed) }()
+	select {
+	case <-closed:
+		vAssert(time.Since(t0) <= 5*time.Second, "Close took longer than its FIN timeout allows")
+	case <-time.After(30 * time.Second):
+		vAssert(false, "Close did not return within 30 s while a retransmission is blocked in the transport write")
+		return
+	}
+	vReach("closed-blocked-resend")
+	out.mu.Lock()
+	out.stalled = false
+	out.mu.Unlock()
+	p.shutdown()
+}
